@@ -2,19 +2,25 @@ package main
 
 import (
 	"fmt"
+	"math/rand"
 	"net/url"
 	"regexp"
 	"sort"
 	"strings"
+	"time"
 
 	"github.com/rhysd/actionlint"
+	"github.com/robfig/cron/v3"
 	"gopkg.in/yaml.v3"
 )
 
 // Tie of AL.Rules.lint (parser + the rules that need nothing but the AST + the stable sort of Linter.check): a source is
 // linted by the real Linter (external tools off); the diagnostics of the modelled kinds — syntax-check, matrix,
 // credentials, job-needs, env-var, id, glob, permissions, if-cond — are compared one by one (position, kind, template,
-// arguments, order) with the model's (operation `lintwf`).
+// arguments, order) with the model's (operation `lintwf`). The CRON check of rule_events.go (robfig/cron) is part of it:
+// the zone names of the document that time.LoadLocation knows go to the model; for a schedule in a zone other than UTC the
+// model judges the format only: both sides name these entries (pseudo entries `cron-unmodelled` after the diagnostics) and
+// the `too frequent` diagnostic of such an entry is left out of the comparison.
 
 var lwKinds = map[string]bool{"syntax-check": true, "matrix": true, "credentials": true, "job-needs": true, "env-var": true,
 	"id": true, "glob": true, "permissions": true, "if-cond": true, "shell-name": true, "deprecated-commands": true, "events": true, "runner-label": true, "action": true, "workflow-call": true}
@@ -39,6 +45,9 @@ var lwTemplates = map[string][]pwTemplate{
 	"shell-name": {pwCompile("shell-name", `shell name @q@ is invalid@o@. available names are @x@`)},
 	"deprecated-commands": {pwCompile("deprecated-command", `workflow command @q@ was deprecated. use @x@`)},
 	"events": {
+		pwCompile("cron-no-schedule", `invalid CRON format @q@ in schedule event: no schedule follows the time zone`),
+		pwCompile("cron-invalid", `invalid CRON format @q@ in schedule event: @x@`),
+		pwCompile("cron-too-frequent", `scheduled job runs too frequently. it runs once per @s@ seconds. the shortest interval is once every 5 minutes`),
 		pwCompile("filters-exclusive", `both @q@ and @q@ filters cannot be used for the same event @q@. note: use '!' to negate patterns`),
 		pwCompile("filter-not-available", `@q@ filter is not available for @s@ event. it is only for @x@`),
 		pwCompile("unknown-webhook", `unknown Webhook event @q@. see @x@`),
@@ -177,6 +186,89 @@ func lwBadURLs(root *yaml.Node) string {
 	return "(" + strings.Join(items, ",") + ")"
 }
 
+// lwZones: the zone names of the CRON specs of the document (any scalar with a `TZ=` / `CRON_TZ=` prefix and a blank) that
+// time.LoadLocation knows
+func lwZones(root *yaml.Node) string {
+	known := map[string]bool{}
+	var walk func(n *yaml.Node)
+	walk = func(n *yaml.Node) {
+		if n.Kind == yaml.ScalarNode {
+			if z, ok := cronZoneOf(n.Value); ok {
+				if _, err := time.LoadLocation(z); err == nil {
+					known[z] = true
+				}
+			}
+		}
+		if n.Kind != yaml.AliasNode {
+			for _, c := range n.Content {
+				walk(c)
+			}
+		}
+	}
+	walk(root)
+	var items []string
+	for z := range known {
+		items = append(items, hx(z))
+	}
+	sort.Strings(items)
+	return "(" + strings.Join(items, ",") + ")"
+}
+
+// lwCronForeign: does robfig's parser accept the spec with a location other than UTC / Local (the interval of such a
+// schedule is outside the model)?
+func lwCronForeign(spec string) (foreign bool) {
+	if (strings.HasPrefix(spec, "TZ=") || strings.HasPrefix(spec, "CRON_TZ=")) && !strings.Contains(spec, " ") {
+		return false
+	}
+	defer func() {
+		if recover() != nil {
+			foreign = false
+		}
+	}()
+	sched, err := cron.NewParser(cron.Minute | cron.Hour | cron.Dom | cron.Month | cron.Dow).Parse(spec)
+	if err != nil {
+		return false
+	}
+	ss, ok := sched.(*cron.SpecSchedule)
+	return ok && ss.Location != time.UTC && ss.Location != time.Local
+}
+
+// lwCronSkips: the positions of the `schedule` entries (of the AST the real parser builds) in a foreign zone, in the order of
+// `on:` — the pseudo entries of the canonical text — and the same as a set
+func lwCronSkips(src string) (markers []string, set map[[2]int]bool) {
+	set = map[[2]int]bool{}
+	w, _ := actionlint.Parse([]byte(src))
+	if w == nil {
+		return nil, set
+	}
+	for _, ev := range w.On {
+		se, ok := ev.(*actionlint.ScheduledEvent)
+		if !ok {
+			continue
+		}
+		for _, c := range se.Cron {
+			if c != nil && c.Pos != nil && lwCronForeign(c.Value) {
+				markers = append(markers, fmt.Sprintf("%d:%d:events:cron-unmodelled:", c.Pos.Line, c.Pos.Col))
+				set[[2]int{c.Pos.Line, c.Pos.Col}] = true
+			}
+		}
+	}
+	return markers, set
+}
+
+// lwCronSkipped: a `too frequent` diagnostic of an entry in a foreign zone
+func lwCronSkipped(e *actionlint.Error, set map[[2]int]bool) bool {
+	return e.Kind == "events" && strings.HasPrefix(e.Message, "scheduled job runs too frequently") && set[[2]int{e.Line, e.Column}]
+}
+
+// lwLocalUTC: the model takes the local zone of the process to be UTC (a spec without zone prefix, `TZ=Local`)
+func lwLocalUTC(r *Report) {
+	if name, off := time.Unix(0, 0).Zone(); off != 0 {
+		r.Notes = append(r.Notes, fmt.Sprintf("lintwf: the local zone is %s (offset %d), the model assumes UTC; forcing time.Local = time.UTC", name, off))
+		time.Local = time.UTC
+	}
+}
+
 // lwCase: protocol line and the canonical diagnostics of the modelled kinds
 func lwCase(src string) (line, impl string, ok bool) {
 	var root yaml.Node
@@ -186,15 +278,16 @@ func lwCase(src string) (line, impl string, ok bool) {
 	nums := map[string]bool{}
 	node := nodeSexp(&root, nums)
 	exNumbers(&root, nums)
-	line = "lintwf " + numsSexp(nums) + " " + lwBadURLs(&root) + " " + node
+	line = "lintwf " + numsSexp(nums) + " " + lwBadURLs(&root) + " " + lwZones(&root) + " " + node
 	errs, err := lintSrc("w.yaml", src)
 	if err != nil {
 		return "", "", false
 	}
 	var parts []string
+	markers, skip := lwCronSkips(src)
 	for _, e := range errs {
-		if e.Kind == "events" && (strings.HasPrefix(e.Message, "invalid CRON format") || strings.HasPrefix(e.Message, "scheduled job runs too frequently")) {
-			continue // robfig/cron is not modelled
+		if lwCronSkipped(e, skip) {
+			continue // the interval of a schedule in a zone other than UTC is not modelled
 		}
 		if lwKinds[e.Kind] {
 			parts = append(parts, lwCanonErr(e))
@@ -203,11 +296,12 @@ func lwCase(src string) (line, impl string, ok bool) {
 			parts = append(parts, fmt.Sprintf("%d:%d:%s:?unmodelled-kind", e.Line, e.Column, e.Kind))
 		}
 	}
-	return line, strings.Join(parts, ";"), true
+	return line, strings.Join(append(parts, markers...), ";"), true
 }
 
 // lwTie runs the `lintwf` tie over the sources
 func lwTie(c *ctx, r *Report, srcs []string, note string, judge func(cs Case) (string, string)) error {
+	lwLocalUTC(r)
 	b := &batch{judge: judge}
 	if judge != nil {
 		b.srcOf = func(cs Case) string { return cs.Input["src"] }
@@ -234,6 +328,12 @@ func lwTie(c *ctx, r *Report, srcs []string, note string, judge func(cs Case) (s
 		for _, d := range strings.Split(impl, ";") {
 			if f := strings.SplitN(d, ":", 5); len(f) >= 4 {
 				r.hist("lintwf:" + f[2])
+				if strings.HasPrefix(f[3], "cron-") {
+					r.hist("lintwf:events/" + f[3])
+					if f[3] == "cron-too-frequent" && len(f) == 5 {
+						r.hist("lintwf:events/cron-too-frequent/" + unhx(f[4]) + "s")
+					}
+				}
 			}
 		}
 		if impl != "" {
@@ -250,4 +350,173 @@ func init() { props["LW"] = runLW }
 func runLW(c *ctx, r *Report) error {
 	r.Rule = "Linter.Lint vs AL.Rules.lint on the corpus and its mutants"
 	return lwStandard(c, r, nil, 30, true)
+}
+
+// ---- CRON specs planted into the sources
+
+var lwCronPool = []string{
+	"*/5 * * * *", "*/4 * * * *", "* * * * *", "0,4 * * * *", "0,5 * * * *", "58,2 * * * *", "0-3 0 1 1 *", "*/15 * * * *", "0 0 * * *", "30 4 1,15 * 5", "0 0 29 2 *",
+	"0 0 31 2 *", "0 0 30 2 MON", "60 * * * *", "* 24 * * *", "*/0 * * * *", "1-2-3 * * * *", "a * * * *", "* * * jan-DEC SUN-sat", "* * * * 7", "* * * *", "* * * * * *", "",
+	" ", "TZ=UTC", "CRON_TZ=UTC", "TZ=", "TZ=UTC * * * * *", "CRON_TZ=UTC 0 0 * * *", "TZ=Local */2 * * * *", "TZ= 0 * * * *", "TZ=Asia/Tokyo 0 0 * * *",
+	"TZ=Asia/Tokyo * * * * *", "CRON_TZ=America/New_York */3 * * * *", "TZ=Etc/UTC * * * * *", "TZ=Nowhere/Land 0 0 * * *", "TZ=Asia/Tokyo 61 * * * *", "TZ=Asia/Tokyo",
+	"TZ=utc 0 0 * * *", "@daily", "@every 1m", "@hourly", "TZ=UTC @daily", "0 0 * * *\n", "*\t*\t*\t*\t*", "\u00a0* * * * *", "${{ x }}", "9223372036854775808 * * * *",
+	"*/9223372036854775807 * * * *", "-0 * * * *", "FR\u0130 * * * *", "* * * * FR\u0130",
+}
+
+// lwCronDirected: several events with diagnostics of their own around the schedule (order), one entry of every outcome
+var lwCronDirected = []string{
+	"on:\n  workflow_dispatch:\n    inputs:\n      c:\n        type: choice\n  schedule:\n    - cron: '*/4 * * * *'\n    - cron: 'TZ=UTC'\n    - cron: '61 * * * *'\n    - cron: 'TZ=Asia/Tokyo * * * * *'\n    - cron: 'TZ=Asia/Tokyo 0 0 * * *'\n    - cron: '0 0 31 2 *'\n    - cron: '@daily'\n    - cron: '0 0 * * *'\n    - cron: 'TZ=Nowhere/Land 0 0 * * *'\n  push:\n    tags-ignore: [x]\n    tags: [y]\njobs:\n  a:\n    runs-on: ubuntu-latest\n    steps:\n      - run: echo\n",
+	"on:\n  schedule:\n    - cron:\n    - cron: [a]\n    - cron: 5\n    - crom: '* * * * *'\n    - &x\n      cron: '* * * * *'\n    - *x\njobs:\n  a:\n    runs-on: ubuntu-latest\n    steps:\n      - run: echo\n",
+}
+
+func init() { props["LWC"] = runLWC }
+
+// runLWC (development): the CRON part of the lintwf tie alone, the directed sources printed
+func runLWC(c *ctx, r *Report) error {
+	r.Rule = "Linter.Lint vs AL.Rules.lint: sources with CRON specs"
+	for _, s := range lwCronDirected {
+		line, impl, ok := lwCase(s)
+		if !ok {
+			continue
+		}
+		out, err := runModel(c.driver, []string{line})
+		if err != nil {
+			return err
+		}
+		fmt.Printf("impl : %s\nmodel: %s\n", impl, out[0])
+	}
+	rngC := rand.New(rand.NewSource(c.seed*31 + 13))
+	all := append([]string{}, lwCronDirected...)
+	for _, name := range []string{"a.yml", "b.yml", "c.yml"} {
+		all = append(all, cronMutants(wfBases[name], rngC, 0)...)
+	}
+	return lwTie(c, r, all, "CRON specs planted in a base workflow", nil)
+}
+
+func lwCronSpec(rng *rand.Rand) string {
+	switch rng.Intn(8) {
+	case 0:
+		return cronValid(rng)
+	case 1:
+		return cronMalformed(rng)
+	case 2:
+		return cronWithZone(rng, cronValid(rng))
+	}
+	return lwCronPool[rng.Intn(len(lwCronPool))]
+}
+
+func lwCronEntry(spec string, rng *rand.Rand) *yaml.Node {
+	v := &yaml.Node{Kind: yaml.ScalarNode, Tag: "!!str", Value: spec}
+	if rng.Intn(3) == 0 {
+		v.Style = yaml.DoubleQuotedStyle
+	}
+	return &yaml.Node{Kind: yaml.MappingNode, Tag: "!!map", Content: []*yaml.Node{{Kind: yaml.ScalarNode, Tag: "!!str", Value: "cron"}, v}}
+}
+
+// cronMutants: sources with CRON specs in them — (a) every `cron:` scalar of the source replaced by every spec of the pool (and
+// by generated ones); (b) the `on:` section (rewritten as a mapping when it is a name or a list of names) given a `schedule:`
+// of one to three entries in front of, between or behind the other events, so that the order of the diagnostics of several
+// events is compared; (c) an alias to an anchored entry as a second entry (two entries at one position).
+// `limit` > 0 bounds the number of sources.
+func cronMutants(src string, rng *rand.Rand, limit int) []string {
+	root, err := parseYAML(src)
+	if err != nil || len(root.Content) == 0 || root.Content[0].Kind != yaml.MappingNode {
+		return nil
+	}
+	var jobs []func(m *yaml.Node)
+	var visits []yvisit
+	walkYAML(root, nil, nil, &visits)
+	specs := append([]string{}, lwCronPool...)
+	for i := 0; i < 12; i++ {
+		specs = append(specs, lwCronSpec(rng))
+	}
+	for _, v := range visits {
+		v := v
+		if v.isKey || v.node.Kind != yaml.ScalarNode || len(v.keys) == 0 || v.keys[len(v.keys)-1] != "cron" {
+			continue
+		}
+		for _, sp := range specs {
+			sp := sp
+			jobs = append(jobs, func(m *yaml.Node) {
+				n := nodeAt(m, v.path)
+				n.Tag, n.Value, n.Style = "!!str", sp, 0
+			})
+		}
+	}
+	onIndex := func(top *yaml.Node) int {
+		for j := 0; j+1 < len(top.Content); j += 2 {
+			if top.Content[j].Kind == yaml.ScalarNode && top.Content[j].Value == "on" {
+				return j + 1
+			}
+		}
+		return -1
+	}
+	if onIndex(root.Content[0]) >= 0 {
+		for k := 0; k < len(specs)+20; k++ {
+			k := k
+			jobs = append(jobs, func(m *yaml.Node) {
+				top := m.Content[0]
+				oi := onIndex(top)
+				on := top.Content[oi]
+				switch on.Kind {
+				case yaml.ScalarNode:
+					on = &yaml.Node{Kind: yaml.MappingNode, Tag: "!!map", Content: []*yaml.Node{{Kind: yaml.ScalarNode, Tag: "!!str", Value: on.Value}, {Kind: yaml.ScalarNode, Tag: "!!null", Value: ""}}}
+				case yaml.SequenceNode:
+					mm := &yaml.Node{Kind: yaml.MappingNode, Tag: "!!map"}
+					for _, e := range on.Content {
+						if e.Kind == yaml.ScalarNode && e.Value != "schedule" {
+							mm.Content = append(mm.Content, &yaml.Node{Kind: yaml.ScalarNode, Tag: "!!str", Value: e.Value}, &yaml.Node{Kind: yaml.ScalarNode, Tag: "!!null", Value: ""})
+						}
+					}
+					on = mm
+				case yaml.MappingNode:
+				default:
+					return
+				}
+				top.Content[oi] = on
+				// an existing schedule goes
+				for j := 0; j+1 < len(on.Content); j += 2 {
+					if on.Content[j].Value == "schedule" {
+						on.Content = append(on.Content[:j], on.Content[j+2:]...)
+						break
+					}
+				}
+				seq := &yaml.Node{Kind: yaml.SequenceNode, Tag: "!!seq"}
+				first := ""
+				if k < len(specs) {
+					first = specs[k]
+				} else {
+					first = lwCronSpec(rng)
+				}
+				seq.Content = append(seq.Content, lwCronEntry(first, rng))
+				for n := rng.Intn(3); n > 0; n-- {
+					seq.Content = append(seq.Content, lwCronEntry(lwCronSpec(rng), rng))
+				}
+				if rng.Intn(6) == 0 {
+					seq.Content[0].Anchor = "sch"
+					seq.Content = append(seq.Content, &yaml.Node{Kind: yaml.AliasNode, Value: "sch", Alias: seq.Content[0]})
+				}
+				at := 2 * rng.Intn(len(on.Content)/2+1)
+				c := append([]*yaml.Node{}, on.Content[:at]...)
+				c = append(c, &yaml.Node{Kind: yaml.ScalarNode, Tag: "!!str", Value: "schedule"}, seq)
+				on.Content = append(c, on.Content[at:]...)
+			})
+		}
+	}
+	if limit > 0 && len(jobs) > limit {
+		rng.Shuffle(len(jobs), func(i, j int) { jobs[i], jobs[j] = jobs[j], jobs[i] })
+		jobs = jobs[:limit]
+	}
+	var out []string
+	for _, j := range jobs {
+		func() {
+			defer func() { recover() }()
+			m := cloneNode(root)
+			j(m)
+			if s, err := emitYAML(m); err == nil {
+				out = append(out, s)
+			}
+		}()
+	}
+	return out
 }
